@@ -466,7 +466,11 @@ func (s *genState) randomTx() {
 		}
 	case 8, 9:
 		k := r.Intn(4)
-		s.g.Emit("stake %d %d", k, int64(r.Pick(1, 5, 50, 500))*ela+int64(r.Intn(2)))
+		sv := int64(r.Pick(1, 5, 50, 500))*ela + int64(r.Intn(2))
+		if r.Chance(6) {
+			sv = int64(r.Pick(0, -1, -100000000))
+		}
+		s.g.Emit("stake %d %d", k, sv)
 		seen := false
 		for _, x := range s.stakes {
 			if x == k {
